@@ -11,6 +11,7 @@ from checks.c07 import lib_decode, lib_encode, shape
 LEVEL = "exploration"
 SHARDS = {"quick": 4, "thorough": 16}
 TIMEOUT = {"quick": 600, "thorough": 1800}
+MIN_EVALUATIONS = {"quick": 150000, "thorough": 150000}  # fewer oracle evaluations than this means the workload collapsed: inconclusive
 RULE = ("T.decode(T.encode(v)) == v for: all values of every exported 1/2-byte type (exhaustive), boundary/walking-bit/"
         "special-float/random values of wider types, strings of length 0..300 and at prefix limits, and generated "
         "Array(int|type|None)/Struct/StructTag/FixedSizeString/n_bytes/IPAddress/Revision compositions to depth 3, plus "
